@@ -7,7 +7,7 @@ import ast
 import re
 
 from .. import regexlang as rx
-from ..astutil import call_attr, calls_in, guard_facts, unparse, walk_local
+from ..astutil import norm_facts, text_facts, call_attr, calls_in, guard_facts, unparse, walk_local
 from ..dataflow import resolved_text
 from ..cfg import CFG
 from ..report import Finding, Report
@@ -359,7 +359,11 @@ def check_forward_refs(idx: Index, rep: Report) -> None:
         raise AnalysisError(f"{g.fq}: store into the block table not found")
     for st in bstores:
         key = unparse(st.targets[0].slice)  # type: ignore[attr-defined]
-        ok = any(isinstance(t, ast.Compare) and len(t.ops) == 1 and unparse(t.left) == key and "blocks" in unparse(t.comparators[0]) and ((isinstance(t.ops[0], ast.NotIn) and pol) or (isinstance(t.ops[0], ast.In) and not pol)) for t, pol in guard_facts(gfn, st))
+        tbl = unparse(st.targets[0].value)  # type: ignore[attr-defined]
+        nf = norm_facts(text_facts(gfn, st))
+        gcfg = CFG(gfn)
+        keys = {key, resolved_text(gcfg, st.targets[0].slice, gcfg.node_of(st))}  # type: ignore[attr-defined]
+        ok = any((f"{k} in {tbl}", False) in nf or (f"{tbl}.get({k}) is None", True) in nf or (f"{tbl}.get({k})", False) in nf for k in keys)
         if ok:
             r.ok(g.fq, f"{g.module.relpath}:{st.lineno} block created only when `{key}` is not in the table")
         else:
